@@ -41,6 +41,10 @@ PATTERNS = [
     ("Either(MatchAtLineEnd('a'), 'b')", ''), ("Either(PrecededBy('a', 'b'), 'a')", ''), ("Either(MatchAtStart(Pregex()), 'b') + 'a'", ''),
     ("Pregex(\"\\\\'\")", "\\'"), ("Pregex('\\\\\"')", '\\"'), ("Pregex(\"\\\\'\" + '\"')", "\\'\""), ("AnyFrom(Backslash(), \"'\")", "\\'"),
     ("Pregex('\\\\n')", '\\n'), ("Pregex('\\\\') + Newline()", '\\'), ("Pregex('a\\\\\\\\' + \"'\")", "\\'"),
+    # the two documented flags are observable only with an anchor / a dot *inside* the pattern and a line break in the text
+    ("Pregex('a') + Newline() + MatchAtLineStart('b')", ''), ("MatchAtLineEnd('a') + Newline() + 'b'", ''), ("'a' + Any() + 'b'", ''),
+    ("Indefinite(Any()) + MatchAtLineEnd(Pregex('a'))", ''), ("Optional(MatchAtLineStart('a') + Newline()) + 'b'", ''),
+    ("Pregex('\ufeff') + Optional('a')", '\ufeff'), ("Optional('a')", '\ufeff'),
 ]
 
 MORE_PATTERNS = [
@@ -222,7 +226,7 @@ def _task11(arg):
             viol.append(V('C11|%s|unbuildable' % expr, f"{expr} cannot be built/compiled: {e!r}", 'import re\nre.compile(str(%s), 24)' % expr))
             continue
         texts = universe(extra, L)
-        small = [t for t in texts if len(t) <= 3][:60] + [t for t in texts if len(t) == L][:20] + ['A', 'AB', 'aB', 'Ab a', 'BA']
+        small = [t for t in texts if len(t) <= 3][:60] + [t for t in texts if len(t) == L][:20] + ['A', 'AB', 'aB', 'Ab a', 'BA'] + texts[-10:]
         cnt['texts'] += len(texts)
         # closure of the abstract state graph: one full sweep per distinct abstract state
         swept = {}
